@@ -366,7 +366,7 @@ func (g *gen) callOf(ret kind, d int) *Node {
 	for i := 0; i < n; i++ {
 		args = append(args, g.expr(kInt, d+1))
 	}
-	if f.vari && g.p(0.3) {
+	if f.vari && g.p(0.3) && len(args) >= f.arity-1 {
 		args = append(args[:f.arity-1:f.arity-1], g.expr(kArr, d+1))
 		return CallSpread(Id(f.name), args...)
 	}
